@@ -16,7 +16,7 @@ pub const APPEND_TEXT_COMMENT_RULE_NAME: &str = "append_text_comment";
 #[derive(Debug, Default)]
 pub struct AppendTextComment {
     metadata: RuleMetadata,
-    text_value: OnceLock<Result<String, String>>,
+    text_value: OnceLock<(PathBuf, Result<String, String>)>,
     text_content: TextContent,
     location: AppendLocation,
 }
@@ -46,43 +46,50 @@ impl AppendTextComment {
     }
 
     fn text(&self, project_path: &Path) -> Result<String, String> {
-        self.text_value
-            .get_or_init(|| {
-                match &self.text_content {
-                    TextContent::None => Err("".to_owned()),
-                    TextContent::Value(value) => Ok(value.clone()),
-                    TextContent::FilePath(file_path) => {
-                        fs::read_to_string(project_path.join(file_path)).map_err(|err| {
-                            format!("unable to read file `{}`: {}", file_path.display(), err)
-                        })
-                    }
-                }
-                .map(|content| {
-                    if content.is_empty() {
-                        "".to_owned()
-                    } else if content.contains('\n') {
-                        let mut equal_count = 0;
+        // the text of a file depends on the location it is resolved from: the
+        // cached value is only valid for the location it was computed with
+        let (cached_location, cached_text) = self
+            .text_value
+            .get_or_init(|| (project_path.to_path_buf(), self.compute_text(project_path)));
 
-                        let close_comment = loop {
-                            let close_comment = format!("]{}]", "=".repeat(equal_count));
-                            if !content.contains(&close_comment) {
-                                break close_comment;
-                            }
-                            equal_count += 1;
-                        };
+        if cached_location == project_path {
+            cached_text.clone()
+        } else {
+            self.compute_text(project_path)
+        }
+    }
 
-                        format!(
-                            "--[{}[\n{}\n{}",
-                            "=".repeat(equal_count),
-                            content,
-                            close_comment
-                        )
-                    } else {
-                        format!("--{}", content)
+    fn compute_text(&self, project_path: &Path) -> Result<String, String> {
+        match &self.text_content {
+            TextContent::None => Err("".to_owned()),
+            TextContent::Value(value) => Ok(value.clone()),
+            TextContent::FilePath(file_path) => fs::read_to_string(project_path.join(file_path))
+                .map_err(|err| format!("unable to read file `{}`: {}", file_path.display(), err)),
+        }
+        .map(|content| {
+            if content.is_empty() {
+                "".to_owned()
+            } else if content.contains('\n') {
+                let mut equal_count = 0;
+
+                let close_comment = loop {
+                    let close_comment = format!("]{}]", "=".repeat(equal_count));
+                    if !content.contains(&close_comment) {
+                        break close_comment;
                     }
-                })
-            })
-            .clone()
+                    equal_count += 1;
+                };
+
+                format!(
+                    "--[{}[\n{}\n{}",
+                    "=".repeat(equal_count),
+                    content,
+                    close_comment
+                )
+            } else {
+                format!("--{}", content)
+            }
+        })
     }
 }
 
